@@ -618,6 +618,8 @@ class RecordingPlateau(StopOnPlateau):
         self._calls_seen = sv.calls if sv is not None else 0
         self.solves_per_step = getattr(self, "solves_per_step", []) + [solves]
         self.seen.append((float(o.last), float(o.loss), int(getattr(o, "reject_count", 0))))
+        tl = getattr(self, "true_loss", None)
+        self.true = getattr(self, "true", []) + [tl() if tl is not None else float(o.loss)]
         super().step(loss)
         self.after = getattr(self, "after", []) + [bool(self.continual())]
 
@@ -631,16 +633,29 @@ def _drive_optimize(plan, out, tr):
     fr = rng.stream(s, "faults")
     for o in plan["ops"]:
         model = _PoseInv(pp.se3(rng.randn(s, ("init", o["id"]), (2, 6), dt, 0.5)), c["nonlin"])
+        # a robust kernel in half of the drives: "the loss" of the statement is then the robust loss
+        kd = [None, None, 0.3, 1.0][rng.H(s, "kernel", o["id"]) % 4]
+        kern = pp.optim.kernel.Huber(kd) if kd is not None else None
+        if kern is not None:
+            out.probe("driver:optimize-with-kernel")
         if c["opt"] == "LM":
             solver = _FlakySolver(pp.optim.solver.Cholesky(), fr, c["p_fault"], out)
             opt = pp.optim.LM(model, solver=solver, strategy=pp.optim.strategy.Adaptive(damping=1e-3),
-                              reject=c["reject"])
+                              reject=c["reject"], kernel=kern)
         else:
             solver = _FlakySolver(pp.optim.solver.PINV(), fr, c["p_fault"] if o["id"] % 2 else 0.0, out)
-            opt = pp.optim.GN(model, solver=solver)
+            opt = pp.optim.GN(model, solver=solver, kernel=kern)
+
+        def true_loss(model=model, kern=kern):
+            # the loss of the model as the harness evaluates it: sum_i rho(|e_i|^2)
+            with torch.no_grad():
+                x = model(inp).square().sum(-1)
+                return float((kern(x) if kern is not None else x).sum())
+        L0 = true_loss()
         sch = RecordingPlateau(opt, steps=steps, patience=c["patience"], decreasing=c["decreasing"],
                                cap=10 * steps + 5)
         sch.solver_ref = solver
+        sch.true_loss = true_loss
         import io, contextlib
         solver.cap = (c["reject"] + 2) * (10 * steps + 5)
         escaped = None
@@ -687,8 +702,14 @@ def _drive_optimize(plan, out, tr):
         ref = RefCtl(steps, c["patience"])
         d = float(c["decreasing"])
         for k, (last, loss, rc) in enumerate(sch.seen):
-            decr = last - loss
-            if abs(decr - d) < 1e-9 * max(abs(last), abs(loss), 1.0) and decr != d:
+            # the decrease of the loss is the harness's own: loss of the model before and after the optimizer step
+            tprev = L0 if k == 0 else sch.true[k - 1]
+            decr = tprev - sch.true[k]
+            if not (abs(decr - (last - loss)) <= 1e-9 * max(abs(tprev), abs(sch.true[k]), 1.0)):
+                out.probe("optimizer-losses-disagree-with-harness")
+            if not math.isfinite(decr):
+                out.declined("C20.loss-nonfinite"); break
+            if abs(decr - d) < 1e-9 * max(abs(tprev), abs(sch.true[k]), 1.0) and decr != d:
                 out.declined("C20.near-threshold"); break
             was = ref.stopped
             seam_rejected = c["opt"] == "LM" and sch.solves_per_step[k] >= 2
@@ -699,9 +720,9 @@ def _drive_optimize(plan, out, tr):
                 for cz in causes:
                     out.probe("stop:" + cz)
             if sch.after[k] != (not ref.stopped):
-                raise Violation("C20.continual", "optimize(): after scheduler step %d (last=%r loss=%r reject_count=%d)"
-                                " continual()=%s, reference says %s" % (k, last, loss, rc, sch.after[k],
-                                                                         not ref.stopped), o["id"], "optimize:continual")
+                raise Violation("C20.continual", "optimize(): after scheduler step %d (loss of the model %r -> %r; optimizer "
+                                "reports last=%r loss=%r reject_count=%d) continual()=%s, reference says %s" %
+                                (k, tprev, sch.true[k], last, loss, rc, sch.after[k], not ref.stopped), o["id"], "optimize:continual")
         else:
             if n and not ref.stopped:
                 raise Violation("C20.liveness", "optimize() returned after %d steps although no stop condition of "
@@ -714,6 +735,8 @@ def _drive_optimize(plan, out, tr):
                                         cap=10 * steps2 + 5)
                 sch2.solver_ref = solver
                 sch2._calls_seen = solver.calls
+                sch2.true_loss = true_loss
+                L1 = true_loss()
                 solver.cap = solver.calls + (c["reject"] + 2) * (10 * steps2 + 5)
                 esc2 = False
                 try:
@@ -733,8 +756,11 @@ def _drive_optimize(plan, out, tr):
                                     (len(sch2.seen), steps2), o["id"], "optimize:budget")
                 ref2 = RefCtl(steps2, c["patience"])
                 for k, (last, loss, rc) in enumerate(sch2.seen):
-                    decr = last - loss
-                    if abs(decr - d) < 1e-9 * max(abs(last), abs(loss), 1.0) and decr != d:
+                    tprev = L1 if k == 0 else sch2.true[k - 1]
+                    decr = tprev - sch2.true[k]
+                    if not math.isfinite(decr):
+                        out.declined("C20.loss-nonfinite"); break
+                    if abs(decr - d) < 1e-9 * max(abs(tprev), abs(sch2.true[k]), 1.0) and decr != d:
                         out.declined("C20.near-threshold"); break
                     rej = (sch2.solves_per_step[k] >= 2) if c["opt"] == "LM" else rc > 0
                     ref2.step(not (decr < d), rejected=rej)
